@@ -79,6 +79,24 @@ def main():
     # F9: a non-nil pointer to a message without fields is read back as nil
     write("C04", "probe-F9", [variant(file(msg("E"), msg("A", fld("P", 1, "message", type="E"), fld("X", 2, "string"))),
                                       config(["A"]))], INNER)
+    # F5: nullable embedded message is not reset by null attributes
+    write("C05", "probe-F5", [variant(file(msg("Emb", fld("S", 1, "string"), fld("I", 2, "int32")),
+                                           msg("A", fld("Emb", 1, "message", type="Emb", embed=True), fld("X", 2, "string"))),
+                                      config(["A"]))], INNER)
+    # F6: a null/unknown list or map that carries a payload is read as a collection of zero elements
+    write("C05", "probe-F6", [variant(file(msg("N", fld("S", 1, "string")),
+                                           msg("A", fld("L", 1, "string", "repeated"), fld("M", 2, "string", "map"),
+                                               fld("NL", 3, "message", "repeated", type="N"), fld("NM", 4, "message", "map", type="N"))),
+                                      config(["A"]))], INNER)
+    # F7: refresh leaves stale list elements / map keys behind
+    write("C09", "probe-F7", [variant(file(msg("N", fld("S", 1, "string")),
+                                           msg("A", fld("L", 1, "string", "repeated"), fld("M", 2, "string", "map"),
+                                               fld("NL", 3, "message", "repeated", type="N"), fld("NM", 4, "message", "map", type="N"))),
+                                      config(["A"]))], INNER)
+    # F11: the oneof of a (non-nullable) embedded message is not reset by CopyFrom
+    write("C07", "probe-F11", [variant(file(msg("E", fld("a", 1, "string", oneof="X"), fld("b", 2, "string", oneof="X"), fld("c", 3, "int32")),
+                                            msg("A", fld("E", 1, "message", type="E", embed=True, nullable=False), fld("S", 2, "string"))),
+                                       config(["A"]))], INNER)
 
 if __name__ == "__main__":
     main()
